@@ -10,10 +10,15 @@ import Glom.Model.C01Env
    "impl": {"text": s, "eval": OBJ|null, "text2": s|null, "pickled": OBJ|null, "same_eval": b}}
       OBJ  ::= {"t"|"path": {"root": r, "steps": [STEP…]}}
       STEP ::= {"attr": name} | {"item": ITEM} | {"items": [ITEM…]}
-             | {"call": {"args": [ARG…], "kwargs": [[k, ARG]…]}} | {"seg": text} | "star" | "starstar"
+             | {"call": {"args": [ARG…], "kwargs": [[k, ARG]…]}} | {"seg": ARG} | "star" | "starstar"
       ITEM ::= {"one": ARG} | {"slice": [ARG|null, ARG|null, ARG|null]}
-      ARG  ::= {"lit": text} | {"t": {"root": r, "steps": [STEP…]}}
-      (a literal is its bbrepr text)
+      ARG  ::= {"lit": SCALAR} | {"t": {"root": r, "steps": [STEP…]}} | {"path": {"root": r, "steps": […]}}
+             | {"seq": [KIND, [ARG…]]} | {"dict": [[ARG, ARG]…]} | {"sliceobj": [ARG, ARG, ARG]}
+             (model output only: {"bad": text} | "fill" | {"deep": KIND} | {"dictmore": […]})
+      KIND ::= "tuple" | "list" | "set" | "frozenset"      (sets and dicts in the order reprlib prints them)
+      SCALAR ::= {"i": decimal text} | {"s": [code point…]} | {"b": [byte…]} | {"f": [repr text, hex]}
+             | {"fbad": "inf"|"-inf"|"nan"} | "None" | "True" | "False" | "Ellipsis"
+             | {"bi": [name, builtin repr]}
 
   {"kind":"seq", "root": r, "steps": [[op, argtext]…], "op": OP, "impl": RES}
       OP  ::= "len" | {"idx": i} | {"slice": [a|null, b|null, c|null]} | "values" | "items"
@@ -35,24 +40,84 @@ def nameOfJson (j : Json) : Except String Name := do
   | .str s => return s.toList
   | _ => throw s!"expected name, got {j.compress}"
 
+def natsOfJson (j : Json) : Except String (List Nat) := do
+  match j with
+  | .arr a => a.toList.mapM (fun x => match x.getNat? with
+    | .ok n => pure n
+    | .error e => throw e)
+  | _ => throw s!"expected list of numbers, got {j.compress}"
+
+def scalarOfJson (j : Json) : Except String Scalar := do
+  match j with
+  | .str "None" => return .none
+  | .str "True" => return .bool true
+  | .str "False" => return .bool false
+  | .str "Ellipsis" => return .ellipsis
+  | _ =>
+    if let .ok (.str s) := j.getObjVal? "i" then
+      match s.toInt? with
+      | some i => return .int i
+      | none => throw s!"bad int {s}"
+    else if let .ok a := j.getObjVal? "s" then return .str (← natsOfJson a)
+    else if let .ok a := j.getObjVal? "b" then return .bytes (← natsOfJson a)
+    else if let .ok (.arr #[.str t, .str h]) := j.getObjVal? "f" then return .float t h
+    else if let .ok (.str t) := j.getObjVal? "fbad" then return .floatBad t
+    else if let .ok (.arr #[.str n, .str raw]) := j.getObjVal? "bi" then return .builtin n raw
+    else throw s!"bad scalar {j.compress}"
+
+def scalarToJson : Scalar → Json
+  | .none => "None"
+  | .bool true => "True"
+  | .bool false => "False"
+  | .ellipsis => "Ellipsis"
+  | .int i => Json.mkObj [("i", toString i)]
+  | .str cs => Json.mkObj [("s", Json.arr (cs.map (fun (n : Nat) => (n : Json))).toArray)]
+  | .bytes bs => Json.mkObj [("b", Json.arr (bs.map (fun (n : Nat) => (n : Json))).toArray)]
+  | .float t h => Json.mkObj [("f", Json.arr #[Json.str t, Json.str h])]
+  | .floatBad t => Json.mkObj [("fbad", t)]
+  | .builtin n raw => Json.mkObj [("bi", Json.arr #[Json.str n, Json.str raw])]
+
+def kindOfJson (j : Json) : Except String Kind :=
+  match j with
+  | .str "tuple" => pure .tuple
+  | .str "list" => pure .list
+  | .str "set" => pure .set
+  | .str "frozenset" => pure .frozenset
+  | _ => throw s!"bad container kind {j.compress}"
+
+def kindToJson : Kind → Json
+  | .tuple => "tuple" | .list => "list" | .set => "set" | .frozenset => "frozenset" | .dict => "dict"
+
 mutual
-  partial def argOfJson (j : Json) : Except String (Arg String) := do
-    if let .ok (.str s) := j.getObjVal? "lit" then return .lit s
+  partial def argOfJson (j : Json) : Except String (Arg Scalar) := do
+    if let .ok s := j.getObjVal? "lit" then return .lit (← scalarOfJson s)
     else if let .ok t := j.getObjVal? "t" then
       let r ← t.getObjValAs? String "root"
       let st ← stepsOfJson (← t.getObjVal? "steps")
       return .t r st
+    else if let .ok t := j.getObjVal? "path" then
+      let r ← t.getObjValAs? String "root"
+      let st ← stepsOfJson (← t.getObjVal? "steps")
+      return .path r st
+    else if let .ok (.arr #[k, .arr xs]) := j.getObjVal? "seq" then
+      return .seq (← kindOfJson k) (← xs.toList.mapM argOfJson)
+    else if let .ok (.arr kvs) := j.getObjVal? "dict" then
+      return .dict (← kvs.toList.mapM (fun e => match e with
+        | .arr #[k, v] => do return (← argOfJson k, ← argOfJson v)
+        | _ => throw s!"bad dict entry {e.compress}"))
+    else if let .ok (.arr #[a, b, c]) := j.getObjVal? "sliceobj" then
+      return .sliceObj (← argOfJson a) (← argOfJson b) (← argOfJson c)
     else throw s!"bad arg {j.compress}"
-  partial def optArgOfJson (j : Json) : Except String (Option (Arg String)) :=
+  partial def optArgOfJson (j : Json) : Except String (Option (Arg Scalar)) :=
     match j with
     | .null => pure none
     | _ => do return some (← argOfJson j)
-  partial def itemOfJson (j : Json) : Except String (Item String) := do
+  partial def itemOfJson (j : Json) : Except String (Item Scalar) := do
     if let .ok a := j.getObjVal? "one" then return .one (← argOfJson a)
     else if let .ok (.arr #[a, b, c]) := j.getObjVal? "slice" then
       return .slice (← optArgOfJson a) (← optArgOfJson b) (← optArgOfJson c)
     else throw s!"bad item {j.compress}"
-  partial def stepOfJson (j : Json) : Except String (Step String) := do
+  partial def stepOfJson (j : Json) : Except String (Step Scalar) := do
     match j with
     | .str "star" => return .star
     | .str "starstar" => return .starstar
@@ -60,7 +125,7 @@ mutual
       if let .ok n := j.getObjVal? "attr" then return .attr (← nameOfJson n)
       else if let .ok i := j.getObjVal? "item" then return .item (← itemOfJson i)
       else if let .ok (.arr is) := j.getObjVal? "items" then return .items (← is.toList.mapM itemOfJson)
-      else if let .ok (.str s) := j.getObjVal? "seg" then return .seg s
+      else if let .ok s := j.getObjVal? "seg" then return .seg (← argOfJson s)
       else if let .ok c := j.getObjVal? "call" then
         let args ← match c.getObjVal? "args" with
           | .ok (.arr a) => a.toList.mapM argOfJson
@@ -72,59 +137,67 @@ mutual
           | _ => throw "bad call kwargs"
         return .call args kwargs
       else throw s!"bad step {j.compress}"
-  partial def stepsOfJson (j : Json) : Except String (List (Step String)) := do
+  partial def stepsOfJson (j : Json) : Except String (List (Step Scalar)) := do
     match j with
     | .arr a => a.toList.mapM stepOfJson
     | _ => throw s!"expected steps, got {j.compress}"
 end
 
-def objOfJson (j : Json) : Except String (Obj String) := do
+def objOfJson (j : Json) : Except String (Obj Scalar) := do
   if let .ok t := j.getObjVal? "t" then
     return .tobj (← t.getObjValAs? String "root") (← stepsOfJson (← t.getObjVal? "steps"))
   else if let .ok t := j.getObjVal? "path" then
     return .pobj (← t.getObjValAs? String "root") (← stepsOfJson (← t.getObjVal? "steps"))
   else throw s!"bad obj {j.compress}"
 
-def optObjOfJson (j : Json) : Except String (Option (Obj String)) :=
+def optObjOfJson (j : Json) : Except String (Option (Obj Scalar)) :=
   match j with
   | .null => pure none
   | _ => do return some (← objOfJson j)
 
 mutual
-  partial def argToJson : Arg String → Json
-    | .lit v => Json.mkObj [("lit", v)]
+  partial def argToJson : Arg Scalar → Json
+    | .lit v => Json.mkObj [("lit", scalarToJson v)]
     | .t r st => Json.mkObj [("t", Json.mkObj [("root", r), ("steps", Json.arr (st.map stepToJson).toArray)])]
-  partial def optArgToJson : Option (Arg String) → Json
+    | .path r st => Json.mkObj [("path", Json.mkObj [("root", r), ("steps", Json.arr (st.map stepToJson).toArray)])]
+    | .seq k xs => Json.mkObj [("seq", Json.arr #[kindToJson k, Json.arr (xs.map argToJson).toArray])]
+    | .dict kvs => Json.mkObj [("dict", Json.arr (kvs.map (fun p => Json.arr #[argToJson p.1, argToJson p.2])).toArray)]
+    | .sliceObj a b c => Json.mkObj [("sliceobj", Json.arr #[argToJson a, argToJson b, argToJson c])]
+    | .bad s => Json.mkObj [("bad", s)]
+    | .fill => "fill"
+    | .deep k => Json.mkObj [("deep", kindToJson k)]
+    | .dictMore kvs => Json.mkObj [("dictmore", Json.arr (kvs.map (fun p => Json.arr #[argToJson p.1, argToJson p.2])).toArray)]
+  partial def optArgToJson : Option (Arg Scalar) → Json
     | none => .null
     | some a => argToJson a
-  partial def itemToJson : Item String → Json
+  partial def itemToJson : Item Scalar → Json
     | .one a => Json.mkObj [("one", argToJson a)]
     | .slice a b c => Json.mkObj [("slice", Json.arr #[optArgToJson a, optArgToJson b, optArgToJson c])]
-  partial def stepToJson : Step String → Json
+  partial def stepToJson : Step Scalar → Json
     | .attr n => Json.mkObj [("attr", String.ofList n)]
     | .item i => Json.mkObj [("item", itemToJson i)]
     | .items is => Json.mkObj [("items", Json.arr (is.map itemToJson).toArray)]
     | .call args kw => Json.mkObj [("call", Json.mkObj [
         ("args", Json.arr (args.map argToJson).toArray),
         ("kwargs", Json.arr (kw.map (fun p => Json.arr #[Json.str p.1, argToJson p.2])).toArray)])]
-    | .seg v => Json.mkObj [("seg", v)]
+    | .seg a => Json.mkObj [("seg", argToJson a)]
     | .star => "star"
     | .starstar => "starstar"
 end
 
-def objToJson : Obj String → Json
+def objToJson : Obj Scalar → Json
   | .tobj r s => Json.mkObj [("t", Json.mkObj [("root", r), ("steps", Json.arr (s.map stepToJson).toArray)])]
   | .pobj r s => Json.mkObj [("path", Json.mkObj [("root", r), ("steps", Json.arr (s.map stepToJson).toArray)])]
 
-def optObjToJson : Option (Obj String) → Json
+def optObjToJson : Option (Obj Scalar) → Json
   | none => .null
   | some o => objToJson o
 
 /-- structural equality of expressions, through their JSON form (no derived instance
     exists for the nested mutual types) -/
-instance : BEq (Step String) := ⟨fun a b => (stepToJson a).compress == (stepToJson b).compress⟩
+instance : BEq (Step Scalar) := ⟨fun a b => (stepToJson a).compress == (stepToJson b).compress⟩
 
-def obsOfJson (j : Json) : Except String (ReprObs String) := do
+def obsOfJson (j : Json) : Except String (ReprObs Scalar) := do
   return { text := ← j.getObjValAs? String "text"
            evalOk := ← optObjOfJson (← j.getObjVal? "eval")
            text2 := match j.getObjVal? "text2" with
@@ -133,18 +206,18 @@ def obsOfJson (j : Json) : Except String (ReprObs String) := do
            pickled := ← optObjOfJson (← j.getObjVal? "pickled")
            sameEval := ← j.getObjValAs? Bool "same_eval" }
 
-def obsToJson (o : ReprObs String) : Json :=
+def obsToJson (o : ReprObs Scalar) : Json :=
   Json.mkObj [("text", o.text), ("eval", optObjToJson o.evalOk),
     ("text2", match o.text2 with | some s => Json.str s | none => .null),
     ("pickled", optObjToJson o.pickled), ("same_eval", o.sameEval)]
 
-def optObjEq (a b : Option (Obj String)) : Bool :=
+def optObjEq (a b : Option (Obj Scalar)) : Bool :=
   match a, b with
   | none, none => true
   | some x, some y => sameObj x y
   | _, _ => false
 
-def stepKind : Step String → String
+def stepKind : Step Scalar → String
   | .attr _ => "attr" | .item _ => "item" | .items _ => "items" | .call .. => "call"
   | .seg _ => "seg" | .star => "star" | .starstar => "starstar"
 
@@ -152,21 +225,27 @@ def runRepr (j : Json) : Except String Json := do
   let x ← objOfJson (← j.getObjVal? "obj")
   let impl ← obsOfJson (← j.getObjVal? "impl")
   let F := genFacts
-  let m := observeRepr F renderToks x
+  let m := observeRepr pyScalar F x
   let agree := m.text == impl.text && optObjEq m.evalOk impl.evalOk && m.text2 == impl.text2 &&
     optObjEq m.pickled impl.pickled && m.sameEval == impl.sameEval
-  let holds := checkRepr x impl
+  -- the domain of the property: objects that can be built, whose scalars are Python expressions
+  let valid := validObj x && fitsObj pyScalar F.fmt unbounded x
+  -- the hypothesis of the round-trip theorems: nothing exceeds a limit of the `_BBRepr` instance
+  let fits := fitsObj pyScalar F.fmt F.lim x
+  let holds := !valid || checkRepr x impl
   let modelHolds := checkRepr x m
-  let valid := validObj x
   let why :=
     (if holds then "" else "property fails on the implementation's observation; ") ++
     (if agree then "" else "model differs from implementation; ") ++
-    (if modelHolds || !valid then "" else "model fails its own checker on a valid object; ")
+    (if modelHolds || !(valid && fits) then "" else "model fails its own checker on a valid object; ") ++
+    (if valid then "" else "outside the domain (not buildable / a scalar that is not an expression); ") ++
+    (if fits then "" else "a limit of the _BBRepr instance is exceeded; ")
   let kind := match x with | .tobj r _ => s!"T-expr:{r}" | .pobj r _ => s!"Path:{r}"
   let last := match x.steps.getLast? with | some s => stepKind s | none => "empty"
-  return Json.mkObj [("agree", agree && (modelHolds || !valid)), ("holds", holds),
-    ("model_holds", modelHolds), ("valid", valid), ("wf", WF F), ("model", obsToJson m),
-    ("branch", s!"repr/{kind}/{last}"), ("why", why)]
+  let dom := if !valid then "/out-of-domain" else if !fits then "/over-limit" else ""
+  return Json.mkObj [("agree", agree && (modelHolds || !(valid && fits))), ("holds", holds),
+    ("model_holds", modelHolds), ("valid", valid), ("fits", fits), ("wf", WF F), ("model", obsToJson m),
+    ("branch", s!"repr/{kind}/{last}{dom}"), ("why", why)]
 
 /-! ### sequence cases -/
 
